@@ -60,6 +60,7 @@ static void state(JW &w, const App &a) {
     w.key("at").arr(); for (int i = 0; i < 2; ++i) w.boolean(a.at[i]); w.end_arr();
     w.key("al").arr(); for (int i = 0; i < 8; ++i) w.num(a.al[i]); w.end_arr();
     w.key("ab").arr(); for (int i = 0; i < 8; ++i) w.boolean(a.ab[i]); w.end_arr();
+    w.key("a2x").arr(); for (int i = 0; i < 3; ++i) w.num(a.a2x[i]); w.end_arr();
     w.kbool("fx_on", a.fx_on).key("fx"); if (!a.fx) w.raw("{\"null\":true}"); else { w.obj().kbool("null", false).knum("gain", a.fx->gain).knum("level", a.fx->level).knum("type", a.fx->type).key("voice").arr(); for (int i = 0; i < 2; ++i) w.obj().knum("vol", a.fx->voice[i].vol).end_obj(); w.end_arr().end_obj(); }
     w.kbool("sub_on", a.sub_on); sub_state(w, "sub", &a.sub); w.key("subs").arr(); for (int i = 0; i < 2; ++i) { w.obj(); w.kbool("null", false).knum("si", a.subs[i].si).knum("sf", q4(a.subs[i].sf)).kbool("st", a.subs[i].st).key("sa").arr().num(a.subs[i].sa[0]).num(a.subs[i].sa[1]).end_arr().end_obj(); } w.end_arr();
     w.kbool("palloc", a.palloc); sub_state(w, "psub", a.psub); w.knum("preset_b", a.preset_b).key("osc").obj().knum("gain", a.osc.gain).end_obj().knum("osc_type", a.osc_type); w.end_obj();
